@@ -74,6 +74,7 @@ func runC03(a *A) {
 		a.Info("legacy_wrappers", n)
 	})
 	a.Rule("flow/null-choke-point", 5, func() { a.ruleNullChokePoint() })
+	a.Rule("aggstate/group-instances-complete", 1, func() { a.ruleGroupInstancesComplete() })
 	a.Rule("aggstate/reset", 2, func() { a.ruleAggregatorReset() })
 	a.Rule("shape/aggregate-name-case", 1, func() { a.ruleAggregateNameCase() })
 	a.Rule("golife/captured-loop-variable", 1, func() { a.ruleCapturedLoopVariable(nil) })
@@ -438,4 +439,52 @@ func (a *A) ruleAggregateNameCase() int {
 		})
 	}
 	return n
+}
+
+// ruleGroupInstancesComplete: "sum, avg, min and max over no usable input are NULL and count is 0":
+// a group must own an accumulator for every aggregate of the query whether or not any row fed it, or
+// the aggregate is simply absent from the group's result row. In GroupAggregator.Add a loop over the
+// prototypes (ga.aggregators) stores prototype.New() into the group's instance map, and that loop
+// runs before every accumulator is fed (it dominates each Add call on an accumulator).
+func (a *A) ruleGroupInstancesComplete() {
+	ga := a.Named("aggregator", "GroupAggregator")
+	protos := a.FieldOf(ga, "aggregators")
+	add := a.Method("aggregator", "GroupAggregator", "Add")
+	construct := fname(add) + "#instances-complete"
+	var loopHead *ssa.BasicBlock
+	for _, l := range mapRangeLoops(add) {
+		if t := TermOf(l.X, nil); t.Kind != "field" || t.Field != protos {
+			continue
+		}
+		for b := range l.Blocks {
+			for _, in := range b.Instrs {
+				mu, ok := in.(*ssa.MapUpdate)
+				if !ok {
+					continue
+				}
+				v := mu.Value
+				if c, ok := v.(*ssa.Call); ok && c.Call.IsInvoke() && c.Call.Method.Name() == "New" {
+					loopHead = l.Header
+				}
+			}
+		}
+	}
+	if loopHead == nil {
+		a.Bad(construct, add.Pos(), "Add has no loop over the prototypes that gives the group an instance of every aggregate: an aggregate that receives no usable input in a group (all NULL) is absent from the group's result row instead of being reported as 0 / NULL")
+		return
+	}
+	ok := true
+	nFeed := 0
+	allInstrs(add, func(in ssa.Instruction) {
+		c, isCall := in.(*ssa.Call)
+		if !isCall || !c.Call.IsInvoke() || c.Call.Method.Name() != "Add" || len(c.Call.Args) != 1 {
+			return
+		}
+		nFeed++
+		if !loopHead.Dominates(c.Block()) {
+			ok = false
+		}
+	})
+	a.Check(ok && nFeed > 0, construct, loopHead.Instrs[0].Pos(), fmt.Sprintf("every group gets an instance of every aggregate before any of the %d feeding sites runs", nFeed),
+		"an accumulator can be fed on a path that does not pass the loop creating the group's instances")
 }
